@@ -238,8 +238,19 @@ struct DlogSession {
     EvalString d; d.AddText("gcc");
     rule->AddBinding("deps", d);
     state->bindings_.AddRule(unique_ptr<const Rule>(rule));
+    // ... or a statement of a rule without it that binds "deps = gcc" itself (every other live output)
+    Rule* plain = new Rule("cc0");
+    plain->AddBinding("command", cmd);
+    state->bindings_.AddRule(unique_ptr<const Rule>(plain));
+    int k = 0;
     for (auto& o : live) {
-      Edge* e = state->AddEdge(rule);
+      bool own = (k++ % 2) == 1;
+      Edge* e = state->AddEdge(own ? plain : rule);
+      if (own) {
+        BindingEnv* env = new BindingEnv(&state->bindings_);   // lives as long as the state
+        env->AddBinding("deps", "gcc");
+        e->env_ = env;
+      }
       string err;
       state->AddOut(e, o, 0, &err);
     }
